@@ -456,6 +456,16 @@ func VH_C11_resolve_during_call() {
 	}()
 	vSettle()
 	vAssert(!resolved, "C11.during.resolution-waits-for-the-call")
+	// while the resolution is pending, a received pipelined call whose context is already cancelled
+	// is rejected exactly once and goes nowhere else
+	cctx, cancel := context.WithCancel(context.Background())
+	cancel()
+	lateRet := &vCountReturner{}
+	lateRel := 0
+	p.Answer().PipelineRecv(cctx, nil, Recv{Returner: lateRet, ReleaseArgs: func() { lateRel++ }})
+	vAssert(lateRet.returns == 1 && lateRet.err != nil, "C11.during.cancelled-call-rejected-exactly-once")
+	vAssert(gc.entered == 1, "C11.during.cancelled-call-not-dispatched")
+	vAssert(vLocksHeld() == 0, "C11.during.cancelled-call.no-lock-held")
 	close(gc.gate)
 	vSettle()
 	vReach("released")
@@ -475,3 +485,13 @@ func VH_C11_resolve_during_call() {
 	p.ReleaseClients()
 	vAssert(vLocksHeld() == 0, "C11.during.after.no-lock-held")
 }
+
+type vCountReturner struct {
+	returns int
+	err     error
+}
+
+func (r *vCountReturner) AllocResults(sz ObjectSize) (Struct, error) {
+	return Struct{}, newError("no results")
+}
+func (r *vCountReturner) Return(e error) { r.returns++; r.err = e }
